@@ -103,7 +103,7 @@ func checkOne(c *mon.Case, s pad.Scheme, bs int, m []byte, capMode string) {
 	case "exact":
 		src = buf[:len(m):len(m)]
 	case "spare": // capacity for everything the scheme may append
-		src = buf[:len(m):len(m)+room]
+		src = buf[: len(m) : len(m)+room]
 	case "tight": // one byte less than the padded length
 		k := len(want) - 1
 		if k < len(m) {
@@ -137,6 +137,10 @@ func checkOne(c *mon.Case, s pad.Scheme, bs int, m []byte, capMode string) {
 		c.Fail("mismatch", "Pad: length %d is not a positive multiple of %d", len(got), bs)
 	}
 	c.Eq("Pad("+s.String()+")", got, want)
+	// the caller's message itself must be untouched
+	if !bytes.Equal(buf[:len(m)], m) {
+		c.Fail("mismatch", "Pad modified the caller's message (src had capacity %d): %x -> %x", cap(src), m, buf[:len(m)])
+	}
 	// the caller's bytes outside what capacity offered must be untouched
 	limit := cap(src)
 	for i := limit; i < len(buf); i++ {
